@@ -21,6 +21,7 @@ from vsc.model.expr_bin_model import ExprBinModel
 from vsc.model.expr_fieldref_model import ExprFieldRefModel
 from vsc.model.expr_in_model import ExprInModel
 from vsc.model.expr_literal_model import ExprLiteralModel
+from vsc.model.expr_range_model import ExprRangeModel
 from vsc.model.field_array_model import FieldArrayModel
 from vsc.model.field_model import FieldModel
 from vsc.model.field_scalar_model import FieldScalarModel
@@ -174,6 +175,18 @@ class VariableBoundVisitor(ModelVisitor):
                 rhs_bounds = self.bound_m[rhs_fm]
             else:
                 rhs_bounds = None
+                
+            # Bounds are inferred over mathematical values. The comparison is
+            # unsigned unless both sides are signed, and an unsigned comparison
+            # does not order the values of a signed variable that way
+            try:
+                lhs_signed = e.lhs.is_signed()
+                rhs_signed = e.rhs.is_signed()
+            except Exception:
+                lhs_signed = rhs_signed = False
+            if lhs_signed != rhs_signed:
+                if (lhs_bounds is not None and lhs_signed) or (rhs_bounds is not None and rhs_signed):
+                    return
                 
             propagator = None
                 
@@ -350,6 +363,16 @@ class VariableBoundVisitor(ModelVisitor):
                             is_nre = False
                         else:
                             is_nre &= is_nre_v.is_nonrand(r)
+                            
+                        # An unsigned bound makes the comparison unsigned, which
+                        # does not order the values of a signed variable
+                        # (see visit_expr_bin)
+                        if is_nre and lhs_fm.is_signed:
+                            for b in ([r.lhs, r.rhs] if isinstance(r, ExprRangeModel) else [r]):
+                                try:
+                                    is_nre &= b.is_signed()
+                                except Exception:
+                                    pass
                     
                         if not is_nre:
                             break
